@@ -24,7 +24,7 @@ LEVEL = "exploration"
 RULE = (
     "case = generated machine (named states, values of any kind incl. falsy ones, final states, multi-event / guarded / self / internal "
     "transitions with or without actions, callbacks on machine/model/listeners, sync or coroutine) + history. The pydot graph of the class "
-    "(DotGraphMachine(cls)()) and of an instance after the history (sm._graph(), every reachable current state) is read structurally: node names == "
+    "(DotGraphMachine(cls)()) and of an instance after the history (sm._graph() and one DotGraphMachine(sm) kept since construction and re-rendered, every reachable current state) is read structurally: node names == "
     "{'i'} + state ids, each once; exactly one edge i -> initial state; multiset of the other edges == multiset of (source, target, set of event "
     "ids, set of guard labels with '!' for unless) over the external transitions; internal transitions are no edges but a line '<events> / "
     "<actions>' inside their state's label; peripheries == 2 iff final; instance: exactly the current state (as told by sm.current_state) carries "
